@@ -5,10 +5,10 @@ from . import numgen
 MANIFEST = dict(
    technique="Lean 4 proof (exactness of compareNumeric/cmpIntFloat/multipleOfInts over all of Int and all dyadic floats) + translator (go/ast over pkg/validate, internal/checks, types/integer.go, types/float.go -> Gen/NumDispatch.lean, regenerated on every run; the model is proved equal to the interpreted tables) + differential correspondence of the model against pkg/validate and real numeric schemas",
    text="Theorems c16_cmp / c16_int_cmp / c16_int_float_cmp / c16_multiple_int prove, for every operand pair of every Go numeric kind, that the transcribed comparison and integer-multiple algorithms equal the mathematical relation (NaN unordered). The model is tied to /repo (a) by translation: toNum_table, compareNumeric_table, cmpIntFloat_table, cmpOps_table, methods_table and the structure fingerprints are proved over the dispatch table regenerated from the source, so a re-routed arm, an edited range constant, a changed sign test or a re-wired schema method changes a proof obligation; (b) by running both on exhaustive 8-bit (thorough: 16-bit) enumerations and a 2^k-boundary grid over all 144 kind pairs, directly and through real schemas.",
-   note="Trusted: Lean kernel; axioms propext/Classical.choice/Quot.sound only; the Go harness and comparer; Go float64 operators and math.Trunc being IEEE-754. Float MultipleOf (documented epsilon rule) is not modelled (its text and float literals are fingerprinted). cmpInts/multipleOfInts/cmpFloats are tied by text fingerprint and generated cases; the translator harness/numgen is trusted.",
+   note="Trusted: Lean kernel; axioms propext/Classical.choice/Quot.sound only; the Go harness and comparer; Go float64 operators and math.Trunc being IEEE-754. Float MultipleOf (documented epsilon rule) is modelled exactly on dyadic floats (Model/NumFloat.lean) and held to the theorems of Proofs/C16Float.lean (never rejects an exact multiple; zero/NaN accept nothing), not to exact divisibility. cmpInts/multipleOfInts/cmpFloats are tied by text fingerprint and generated cases; the translator harness/numgen is trusted.",
    design="DESIGN.md §5 C16")
 
-MODULES = ["Gozod.Proofs.C16", "Gozod.Proofs.C16Dispatch"]
+MODULES = ["Gozod.Proofs.C16", "Gozod.Proofs.C16Dispatch", "Gozod.Proofs.C16Float"]
 THEOREMS = [
     "Gozod.C16.c16_cmp", "Gozod.C16.c16_int_cmp", "Gozod.C16.c16_sign", "Gozod.C16.c16_float_cmp",
     "Gozod.C16.c16_nan_left", "Gozod.C16.c16_nan_right", "Gozod.C16.c16_neg_zero", "Gozod.C16.c16_zero_eq",
@@ -19,6 +19,9 @@ THEOREMS = [
     "Gozod.C16D.cmpOps_table", "Gozod.C16D.c16_cmp_table", "Gozod.C16D.sign_ops", "Gozod.C16D.check_ctors",
     "Gozod.C16D.cmpFloats_arms", "Gozod.C16D.cmpInts_arms", "Gozod.C16D.multipleOfInts_arms", "Gozod.C16D.multipleOf_consts",
     "Gozod.C16D.frames", "Gozod.C16D.methods_table",
+    # the float branch of MultipleOf (documented epsilon rule, Model/NumFloat.lean)
+    "Gozod.C16F.c16_float_multiple_complete", "Gozod.C16F.c16_float_multiple_zero", "Gozod.C16F.c16_float_multiple_nan",
+    "Gozod.C16F.float_multiple_not_exact", "Gozod.C16F.float_multiple_inf_divisor", "Gozod.C16F.zero_lt_eps",
 ]
 
 def key(op, impl, M, S):
@@ -58,7 +61,7 @@ def run(res):
         "Gt/Gte/Lt/Lte/Min/Max/Positive/Negative/NonNegative/NonPositive/MultipleOf/Step). distinct = distinct op lines.")
     res.assumptions += [
         "Go's float64 <, > and math.Trunc are IEEE-754 (F.cmp / truncInt model them on exact dyadic rationals)",
-        "float MultipleOf keeps the documented epsilon rule and is outside C16's exact-divisibility clause (not modelled)",
+        "float MultipleOf keeps the documented epsilon rule and is outside C16's exact-divisibility clause; it is modelled exactly (Model/NumFloat.lean: fmod exact, product and difference rounded to nearest-even) and compared case by case (fmul lines: the model observation is the oracle)",
         "amd64: int/uint are 64-bit",
     ]
     return res.finish()
